@@ -73,15 +73,25 @@ func zzLastAnswer(c *zzConn) *diam.Message {
 func zzC10_gate() {
 	st := New(zzSettings(true))
 	var fired []int
-	st.HandleFunc("CCR", func(c diam.Conn, m *diam.Message) { fired = append(fired, 1) })
-	st.HandleFunc("CCA", func(c diam.Conn, m *diam.Message) { fired = append(fired, 2) })
+	// registrations by name are made through either entry point: HandleFunc, or Handle with a Handler object
+	asObject := zzFlag("registerWithHandle")
+	reg := func(cmd string, id int) {
+		f := func(c diam.Conn, m *diam.Message) { fired = append(fired, id) }
+		if asObject {
+			st.Handle(cmd, diam.HandlerFunc(f))
+		} else {
+			st.HandleFunc(cmd, f)
+		}
+	}
+	reg("CCR", 1)
+	reg("CCA", 2)
 	rarIdx := diam.CommandIndex{AppID: 4, Code: diam.ReAuth, Request: true}
 	st.HandleIdx(rarIdx, diam.HandlerFunc(func(c diam.Conn, m *diam.Message) { fired = append(fired, 3) }))
-	st.HandleFunc("ALL", func(c diam.Conn, m *diam.Message) { fired = append(fired, 4) })
+	reg("ALL", 4)
 	// attempts to replace the built-ins must be refused
-	st.HandleFunc("CER", func(c diam.Conn, m *diam.Message) { fired = append(fired, 90) })
-	st.HandleFunc("CEA", func(c diam.Conn, m *diam.Message) { fired = append(fired, 91) })
-	st.HandleFunc("DWR", func(c diam.Conn, m *diam.Message) { fired = append(fired, 92) })
+	reg("CER", 90)
+	reg("CEA", 91)
+	reg("DWR", 92)
 	st.HandleIdx(baseCERIdx, diam.HandlerFunc(func(c diam.Conn, m *diam.Message) { fired = append(fired, 93) }))
 	st.HandleIdx(baseDWRIdx, diam.HandlerFunc(func(c diam.Conn, m *diam.Message) { fired = append(fired, 94) }))
 	for {
